@@ -1,9 +1,12 @@
 PROP = dict(
     level="exploration",
-    rule="C09: vector runtime vs sequential runtime on the same data (file level and lake level)",
-    level_text="Exploration by differential property-based testing; see per-test rules.",
-    level_note="Trusted: the sequential runtime as reference.",
-    technique="differential property-based testing (rapid)",
-    assumptions=[],
-    tests=[dict(name="TestVamExpr", quick=(8, 150), thorough=(16, 2000))],
+    rule="C09: the vector runtime (compiler.VectorCompile over a VNG object; auto-vectorized lake plans) vs the sequential runtime on the same data",
+    level_text="Exploration by differential property-based testing at three levels: single expressions compared row by row with the difference localised to a minimal sub-expression (TestVamExpr), operator pipelines compared as whole sequences with the difference localised to the first differing operator (TestVamOps), and lake queries of the auto-vectorized shapes executed at parallelism 2 in four vector states - none, some, all, after delete (TestVamLake); plus one deterministic concurrency construction for the vector cache (TestVcacheFetch). Programs, inputs and states are sampled, not enumerated. The vector runtime is prototype grade: 61 open findings are listed; each is recognised by a root-cause rule or a narrow signature and neutralised (row-wise for expressions), so the search continues behind them.",
+    level_note="Trusted: the sequential runtime as reference (its own semantics are C07/C10's business), the harness's in-memory storage engine, VNG writing/reading of the input (C03). Not covered: vector programs whose record-building operators meet many record types (cost K^(2^depth) in the vector runtime - bounded in the generator to keep the shared machine alive), chains of operators over missing fields (same blow-up), lateral over-bodies, unions under nulls and signalling NaNs (C03 findings), vam operators the compiler rejects (skipped and counted).",
+    technique="differential property-based testing (rapid) with root-cause localisation; one deterministic lock-cycle construction",
+    assumptions=["the in-memory storage engine stands in for file/S3 storage", "float inputs of sum() are quarter-valued so that sums are exact in any order (no tolerance needed)"],
+    tests=[dict(name="TestVamExpr", quick=(3, 500), thorough=(6, 6000)),
+           dict(name="TestVamOps", quick=(3, 500), thorough=(6, 6000)),
+           dict(name="TestVamLake", quick=(2, 40), thorough=(4, 500)),
+           dict(name="TestVcacheFetch", quick=(1, 2), thorough=(1, 6))],
 )
